@@ -11,6 +11,7 @@ import (
 	"os"
 	"reflect"
 	"runtime"
+	"sort"
 	"strings"
 	"time"
 
@@ -611,6 +612,104 @@ func sortStrings(a []string) {
 	}
 }
 
+// nbtUsedLists: typed destinations that already hold lists are decoded into again with documents whose lists are shorter,
+// whose compounds lack keys the earlier elements had, whose maps have other keys, whose interface elements are of another
+// kind. The law (UsedOK): the result is what a fresh destination gets.
+func nbtUsedLists(env *vk.Env) {
+	type item struct {
+		ID    string           `nbt:"id"`
+		Count int32            `nbt:"count"`
+		Tag   map[string]int32 `nbt:"tag"`
+	}
+	type inv struct {
+		Items []item             `nbt:"Items"`
+		L     []any              `nbt:"L"`
+		M     []map[string]int32 `nbt:"M"`
+		P     []*item            `nbt:"P"`
+	}
+	c := func(es ...nbtEntry) *nbtNode { return &nbtNode{T: 10, Ent: es} }
+	e := func(k string, n *nbtNode) nbtEntry { return nbtEntry{K: ints([]byte(k)), N: n} }
+	str := func(v string) *nbtNode { return &nbtNode{T: 8, Pat: ints([]byte(v))} }
+	i32 := func(v int) *nbtNode { return &nbtNode{T: 3, Pat: []int{0, 0, 0, v}} }
+	lst := func(et int, es ...*nbtNode) *nbtNode { return &nbtNode{T: 9, Et: et, Lst: es} }
+	long := func(v int) *nbtNode { return &nbtNode{T: 4, Pat: []int{0, 0, 0, 0, 0, 0, 0, v}} }
+	byt := func(v int) *nbtNode { return &nbtNode{T: 1, Pat: []int{v}} }
+	full := func(id string, n int) *nbtNode {
+		return c(e("id", str(id)), e("count", i32(n)), e("tag", c(e("dmg", i32(3)))))
+	}
+	first := c(e("Items", lst(10, full("a", 5), full("b", 6), full("c", 7))), e("L", lst(4, long(1), long(2), long(3))),
+		e("M", lst(10, c(e("a", i32(1)), e("b", i32(2))), c(e("a", i32(3))))), e("P", lst(10, full("p", 9), full("q", 8))))
+	seconds := map[string]*nbtNode{
+		"compounds-with-fewer-keys":          c(e("Items", lst(10, c(e("id", str("x"))), c(e("count", i32(1)))))),
+		"shorter-list":                       c(e("Items", lst(10, full("z", 1)))),
+		"interface-elements-of-another-kind": c(e("L", lst(1, byt(9), byt(8)))),
+		"maps-with-other-keys":               c(e("M", lst(10, c(e("c", i32(7)))))),
+		"pointer-elements":                   c(e("P", lst(10, c(e("id", str("y")))))),
+		"empty-lists":                        c(e("Items", lst(0)), e("L", lst(0)), e("M", lst(0))),
+	}
+	tr := &vk.Trace{}
+	names := []string{}
+	for name := range seconds {
+		names = append(names, name)
+	}
+	sort.Strings(names)
+	for _, name := range names {
+		for _, fmtName := range []string{"file", "network"} {
+			d1, d2 := nbtDocBytes(fmtName, []byte{}, first), nbtDocBytes(fmtName, []byte{}, seconds[name])
+			var used, fresh inv
+			var e1, e2 error
+			// only the fields the second document names are compared: the others keep what they held
+			sameFields := func(doc *nbtNode) bool {
+				for _, en := range doc.Ent {
+					f := string(bytesOf(en.K))
+					if !reflect.DeepEqual(reflect.ValueOf(used).FieldByName(f).Interface(), reflect.ValueOf(fresh).FieldByName(f).Interface()) {
+						return false
+					}
+				}
+				return true
+			}
+			pan, _ := catch(func() {
+				dec := func(doc []byte, dst any) error {
+					d := nbt.NewDecoder(bytes.NewReader(doc))
+					d.NetworkFormat(fmtName == "network")
+					_, err := d.Decode(dst)
+					return err
+				}
+				dec(d1, &used)
+				e1 = dec(d2, &used)
+				e2 = dec(d2, &fresh)
+			})
+			same := !pan && (e1 == nil) == (e2 == nil) && (e1 != nil || sameFields(seconds[name]))
+			tr.Add(map[string]any{"k": "decused", "fmt": fmtName, "case": name, "same": same, "panicked": pan, "used": vkTrunc(fmt.Sprintf("%+v", used), 300), "fresh": vkTrunc(fmt.Sprintf("%+v", fresh), 300)})
+			env.Distinct("used-lists/" + name)
+		}
+	}
+	v, err := env.ValidateTrace(vk.TLCRun{Name: "B lists into used destinations", Module: "NBT_Trace", Cfg: "NBT_Trace.cfg", Workers: 1, Continue: true}, "trace.ndjson", tr.Bytes())
+	if err != nil || (!v.Accepted && v.Res.Violated == "") {
+		env.Infra("lists into used destinations: no verdict: %v", err)
+		return
+	}
+	env.AddTraces(int64(tr.N - len(v.Res.Lines)))
+	env.AddEval(int64(tr.N))
+	lines := bytes.Split(bytes.TrimSpace(tr.Bytes()), []byte("\n"))
+	seen := map[string]bool{}
+	for _, vl := range v.Res.Lines {
+		if vl.L < 1 || vl.L > len(lines) {
+			continue
+		}
+		var h struct {
+			Case string `json:"case"`
+		}
+		json.Unmarshal(lines[vl.L-1], &h)
+		if seen[h.Case] {
+			continue
+		}
+		seen[h.Case] = true
+		env.Report("nbt decode into a destination that already holds lists differs from the decode into a fresh one ("+h.Case+")",
+			vl.Inv+" violated by recorded calls: "+vkTrunc(string(lines[vl.L-1]), 900), map[string]any{"kind": "rerun", "seed": env.Seed, "tier": env.Tier})
+	}
+}
+
 func nbtRejudgeLine(env *vk.Env, raw []byte) (sig, detail string, rejected bool) {
 	var head struct {
 		K         string  `json:"k"`
@@ -887,6 +986,7 @@ func runC01(env *vk.Env) {
 		env.Distinct(fmt.Sprintf("block-sized-array/tag%d/%d", bl.tag, bl.n))
 	}
 	nbtJudge(env, tr, "B arrays of block-size lengths")
+	nbtUsedLists(env)
 	tr = &vk.Trace{}
 	ne := env.Pick(400, 60000)
 	for i := 0; i < ne; i++ {
@@ -1000,6 +1100,34 @@ func runC02(env *vk.Env) {
 			tr.Add(nbtDecode(fmtName, doc, tg, "random"))
 		}
 		allowDupKeys = false
+	}
+	// arrays whose payload is a whole number of 512-byte blocks (and one element more / less), alone and between two
+	// other fields: what a carrier reads in blocks it re-emits complete
+	for _, bl := range []struct{ tag, n int }{{7, 511}, {7, 512}, {7, 513}, {7, 1024}, {7, 2048}, {11, 127}, {11, 128}, {11, 256}, {12, 64}, {12, 65}, {12, 128}} {
+		arr := &nbtNode{T: bl.tag}
+		if bl.tag == 7 {
+			arr.Pat = make([]int, bl.n)
+			for i := range arr.Pat {
+				arr.Pat[i] = (i*13 + 5) % 256
+			}
+		} else {
+			w := map[int]int{11: 4, 12: 8}[bl.tag]
+			for i := 0; i < bl.n; i++ {
+				wd := make([]int, w)
+				for k := range wd {
+					wd[k] = (i*29 + k*3 + 2) % 256
+				}
+				arr.Wds = append(arr.Wds, wd)
+			}
+		}
+		for _, tree := range []*nbtNode{arr, {T: 10, Ent: []nbtEntry{{K: ints([]byte("before")), N: &nbtNode{T: 1, Pat: []int{7}}}, {K: ints([]byte("data")), N: arr}, {K: ints([]byte("after")), N: &nbtNode{T: 8, Pat: ints([]byte("x"))}}}}} {
+			fmtName := []string{"file", "network"}[bl.n%2]
+			doc := append(nbtDocBytes(fmtName, []byte{}, tree), 0x0a, 0x00)
+			for _, tg := range []string{"raw", "dynbt", "raw-used", "dynbt-used"} {
+				tr.Add(nbtDecode(fmtName, doc, tg, "block-sized-array"))
+			}
+		}
+		env.Distinct(fmt.Sprintf("carrier/block-sized-array/tag%d/%d", bl.tag, bl.n))
 	}
 	nbtFlush(env, &tr, "B carriers re-emit byte for byte", &part, true)
 	nbtSnbtCarrierLeg(env, rng)
